@@ -135,10 +135,24 @@ def load_known() -> dict:
     return {"findings": [], "fixed": []}
 
 
-def match_known(known: dict, prop: str, fn: str, args: dict) -> Optional[dict]:
+def match_known(known: dict, prop: str, fn: str, args: dict, cell: Optional[dict] = None, notes: Optional[list] = None) -> Optional[dict]:
+    """A recorded finding matches a replayed violation when property and harness function agree
+    and either the exact input is listed ('args'), or the failing condition is: the reason the
+    concrete replay reports ('reason') plus the listed subset of cell / argument values."""
     for f in known.get("findings", []):
-        if f.get("property") == prop and f.get("function") == fn and f.get("args") == args:
-            return f
+        if f.get("property") != prop or f.get("function") != fn:
+            continue
+        if "args" in f:
+            if f["args"] == args:
+                return f
+            continue
+        if "reason" in f and f["reason"] not in (notes or []):
+            continue
+        if any((cell or {}).get(k) != v for k, v in f.get("cell_subset", {}).items()):
+            continue
+        if any(args.get(k) != v for k, v in f.get("args_subset", {}).items()):
+            continue
+        return f
     return None
 
 
@@ -153,6 +167,7 @@ def run_property(prop: str, modules: List[str], tier: str, seed: int) -> int:
     bounds: List[str] = []
     errors: List[str] = []
     corpus_violations: List[Any] = []
+    already_printed: set = set()
     # -- 1. import harness modules, concrete corpus validation (oracle vs repo-pinned expectations)
     sys.path.insert(0, str(ROOT))
     for mname in modules:
@@ -179,13 +194,18 @@ def run_property(prop: str, modules: List[str], tier: str, seed: int) -> int:
         # a pinned concrete input on which the property fails on the current tree: already a
         # concrete run on the real code (no CrossHair, no stubs) -> reported as a violation
         known = load_known()
+        known_printed = already_printed
         replay_dir = ROOT / "replays" / prop
         out = []
         for mname, v in corpus_violations:
             cell_j = {k: _jsonable(x) for k, x in v["cell"].items()}
             args_j = {k: _jsonable(x) for k, x in v["args"].items()}
-            if match_known(known, prop, v["function"], args_j):
-                print(f"KNOWN-FINDING: property={prop} {match_known(known, prop, v['function'], args_j).get('what', '')}")
+            rep = replay_concrete(mname, v["function"], cell_j, args_j)
+            kf = match_known(known, prop, v["function"], args_j, cell_j, rep.get("notes"))
+            if kf:
+                if kf.get("what") not in known_printed:
+                    known_printed.add(kf.get("what"))
+                    print(f"KNOWN-FINDING: property={prop} {kf.get('what', '')}")
                 continue
             replay_dir.mkdir(parents=True, exist_ok=True)
             h = hashlib.sha1(json.dumps([mname, v["function"], cell_j, args_j], sort_keys=True).encode()).hexdigest()[:12]
@@ -255,7 +275,7 @@ def run_property(prop: str, modules: List[str], tier: str, seed: int) -> int:
             rep = replay_concrete(ob.module, rfn, cell_j, ce["args"])
             ce["replay"] = rep
             if rep.get("outcome") == "violation":
-                kf = match_known(known, prop, rfn, ce["args"])
+                kf = match_known(known, prop, rfn, ce["args"], cell_j, rep.get("notes"))
                 if kf:
                     known_hits.append(kf)
                     continue
@@ -275,8 +295,8 @@ def run_property(prop: str, modules: List[str], tier: str, seed: int) -> int:
 
     _write_evidence(prop, tier, seed, t0, jobs, twins, corpus_cases, functions_encoded, assumptions, bounds,
                     violations=len(violations), harness_errors=harness_errors, known_hits=known_hits, spurious=spurious)
-    for kf in known_hits:
-        print(f"KNOWN-FINDING: property={prop} {kf.get('what', '')}")
+    for what in sorted({kf.get("what", "") for kf in known_hits} - already_printed):
+        print(f"KNOWN-FINDING: property={prop} {what}")
     conf = sum(1 for j in jobs if j["result"].get("verdict") == "confirmed")
     unk = sum(1 for j in jobs if j["result"].get("verdict") == "unknown")
     print(f"{prop} tier={tier}: obligations={len(jobs)} confirmed_all_paths={conf} inconclusive={unk} "
